@@ -308,6 +308,7 @@ def _r16_1d(res, P, cfgname):
                     guarded_site[(cp, f['p'])] = not cfg.must_pass([bb])
     n = 0
     crates = set(P.units)
+    used_extras = {}
     for helper, fnlist in table.items():
         hc = helper.split("::", 1)[0]
         if hc not in crates:
@@ -322,6 +323,16 @@ def _r16_1d(res, P, cfgname):
             key = "%s in %s" % (helper.rsplit("::", 1)[1], fp)
             if fp not in have.get(helper, set()):
                 if fp.startswith("<") and fc not in crates:
+                    continue
+                # renamed / moved / extracted: an unlisted function of the same crate raises the same documented
+                # panic behind a conditional edge and is not needed to account for another listed site
+                extra = sorted(x for x in have.get(helper, set()) if x not in fnlist and x not in used_extras.get(helper, set())
+                               and (guarded_site.get((helper, x), False) or (x.endswith("::{closure#0}") and fp.endswith("::{closure#0}")))
+                               and x.lstrip("<").split("::", 1)[0] == fc)
+                if extra:
+                    pref = [x for x in extra if x.rsplit("::", 1)[0] == fp.rsplit("::", 1)[0]] or extra
+                    used_extras.setdefault(helper, set()).add(pref[0])
+                    res.ok("R16.1d", cfgname, key, sample=dict(site=fp, now_in=pref[0], note="renamed / moved: the documented panic is raised by an unlisted function of the same crate"))
                     continue
                 res.fail("R16.1d", cfgname, key, "documented panic `%s` is no longer raised in %s (guard removed or moved)" % (helper, fp))
             elif not guarded_site.get((helper, fp), False) and not fp.endswith(("panic_", "::{closure#0}")) and "error::assert" not in fp:
